@@ -15,6 +15,7 @@ import MW.Spec.Live
 import MW.Lemmas.ProtoLive
 import MW.Lemmas.ProtoStop
 import MW.Lemmas.ProtoLiveEx
+import MW.Lemmas.ProtoLive2
 namespace MW.Props.C20
 open MW.Model.Proto MW.Model.Proto.Skel MW.Lemmas.Proto MW.Spec.Live
 
@@ -253,6 +254,26 @@ example : IsRun cfg4 MW.Lemmas.ProtoLiveEx.stopRun MW.Lemmas.ProtoLiveEx.stopLab
     (∀ j, (MW.Lemmas.ProtoLiveEx.stopRun j).quit = true → MW.Lemmas.ProtoLiveEx.stopLab j ≠ some .aPush) ∧
     (MW.Lemmas.ProtoLiveEx.stopRun 1).quit = true :=
   ⟨MW.Lemmas.ProtoLiveEx.stop_isRun, MW.Lemmas.ProtoLiveEx.stop_wf, fun j _ => MW.Lemmas.ProtoLiveEx.stop_noPush j, rfl⟩
+
+/-- the round-3 intent, with the hypothesis it needs: when the producers are quiet from some instant on, the
+    follower's queues drain and `followerWork` is 0 from some instant on -/
+theorem follower_drains (c : Cfg) (hc : c.busy < c.cap) (B : Nat → Nat) (run : Nat → St) (ls : Nat → Option Label)
+    (hr : IsRun c run ls) (hf : FairRun c run ls) (hnq : ∀ i, (run i).quit = false)
+    (hbud : ∀ i t, (obs run ls i).used t ≤ B t) (i0 : Nat)
+    (hquiet : ∀ j, i0 ≤ j → ls j ≠ some .eBlk ∧ ls j ≠ some .eTx) :
+    ∃ j, i0 ≤ j ∧ ∀ j', j ≤ j' → followerWork (run j') = 0 :=
+  MW.Lemmas.ProtoLive2.follower_drains hc B hr hf hnq hbud i0 hquiet
+
+/-- LIFE CYCLE (no global "no stop request" hypothesis): in a fair run with bounded task rounds and an API that is
+    quiet after the stop request, everything announced / accepted by instant `i` is processed / finished at some
+    later instant – or a stop has been requested, and then the run reaches the final state, database closed. -/
+theorem life_cycle (c : Cfg) (hc : c.busy < c.cap) (B : Nat → Nat) (run : Nat → St) (ls : Nat → Option Label)
+    (hr : IsRun c run ls) (hf : FairRun c run ls) (hbud : ∀ i t, (obs run ls i).used t ≤ B t)
+    (hapi : ∀ j, (run j).quit = true → ls j ≠ some .aPush) (i : Nat) :
+    ((∃ j, i ≤ j ∧ (obs run ls i).annB ≤ (obs run ls j).procB) ∧
+     (∀ k, k < (obs run ls i).next → ∃ j, i ≤ j ∧ k ∈ (obs run ls j).fin)) ∨
+    ∃ j, i ≤ j ∧ Final (run j) ∧ (run j).dbOpen = false :=
+  MW.Lemmas.ProtoLive2.life_cycle hc B hr hf hbud hapi i
 
 -- non-vacuity
 example : Reach .fixed cfg4 { nt := 2, nb := 5 } := .init (by simp [Init, cfg4])
